@@ -8,7 +8,7 @@ V = Path(__file__).resolve().parent.parent
 ALL = [f"C{i:02d}" for i in range(1, 21)]
 
 CHECKS = json.load(open(V / "tools" / "checks.json"))
-NOT_YET = "check not built yet in this round (planned, see DESIGN.md section 9)"
+NOT_YET = "no check built (see DESIGN.md)"
 
 
 def main():
